@@ -33,6 +33,12 @@ _pool = None
 def _init_worker():
     import signal
     signal.signal(signal.SIGINT, signal.SIG_IGN)
+    try:
+        import resource
+        lim = int(os.environ.get("VERIF_WORKER_AS_GB", "6")) << 30
+        resource.setrlimit(resource.RLIMIT_AS, (lim, lim))      # a runaway execution fails with MemoryError instead of taking the box down
+    except Exception:
+        pass
     devnull = os.open(os.devnull, os.O_WRONLY)
     os.dup2(devnull, 1)
     os.dup2(devnull, 2)
